@@ -259,8 +259,14 @@ def _inside_iteration_over(lits, base):
         if src.op == "loop":
             src = B.peel(src.a[2])
         k = 0
-        while src.op == "call" and len(src.a[1]) >= 1 and B.cname(src) in ("IntoIterator::into_iter", "slice::<impl [T]>::iter", "Iterator::enumerate", "Iterator::copied", "Iterator::cloned") and k < 6:
-            src = B.peel(src.a[1][0])
+        # (an element of `base.iter().skip(n)` / `.take(n)` / `.rev()` / `&base[n..]` is an element of base just as well)
+        while k < 8:
+            if src.op == "call" and len(src.a[1]) >= 1 and B.cname(src) in ("IntoIterator::into_iter", "slice::<impl [T]>::iter", "Iterator::enumerate", "Iterator::copied", "Iterator::cloned", "Iterator::skip", "Iterator::take", "Iterator::rev", "Iterator::peekable", "Iterator::by_ref", "Iterator::step_by"):
+                src = B.peel(src.a[1][0])
+            elif src.op == "call" and B.cname(src) == "Index::index" and len(src.a[1]) == 2 and B.peel(src.a[1][1]).op == "agg" and B.peel(src.a[1][1]).a[0][0] == "adt" and str(B.peel(src.a[1][1]).a[0][1]).startswith("Range"):
+                src = B.peel(src.a[1][0])
+            else:
+                break
             k += 1
         if strip_sites(src) == strip_sites(base):
             return True
@@ -596,7 +602,7 @@ def _byte_xor_callers(P, f):
             if x.op == "call" and B.cname(x) == "alloc::from_elem" and B._len_term(x.a[1][1]) == l0:
                 ok = True
         # (b) 32-byte digest against a parameter that every caller fills with 32 bytes
-        if not ok and any(x.op == "call" and B.cname(x).endswith("finalize_fixed") for x in subterms(a1)):
+        if not ok and any(x.op == "call" and (B.cname(x).endswith("finalize_fixed") or (B.cname(x) in ("Digest::digest", "Digest::finalize") and B._digest_len(x) == 32)) for x in subterms(a1)):
             p0 = B.peel(a0)
             if p0.op == "param":
                 ok = True
@@ -754,6 +760,17 @@ def _copy_len_ok(ev, f, b, dst, src, lits):
                     op = atom[2] if pol else R._NEG[atom[2]]
                     if op == "Eq" and any(x.op == "param" and x.a[1] == sp.a[1] for x in subterms(atom[3]) | subterms(atom[4])):
                         return ("len-guard", "dominated by the exact-length comparison between the representation and the input")
+    # the mirror image of the const-generic conversion above: `let mut out = [0u8; N]; out.copy_from_slice(repr.as_ref())`
+    # in a function whose array length is the const generic N - the repr is the field's 32 bytes and every instantiation
+    # uses N = 32 (the same contract the pinned `<[u8; N]>::try_from(repr).unwrap()` rests on)
+    if d.op == "repeat" and not isinstance(d.a[1], int):
+        sp = B.peel(src)
+        k_ = 0
+        while sp.op == "call" and len(sp.a[1]) == 1 and B.cname(sp) in ("AsRef::as_ref", "AsMut::as_mut", "Deref::deref", "Borrow::borrow") and k_ < 4:
+            sp = B.peel(sp.a[1][0])
+            k_ += 1
+        if sp.op == "call" and B.cname(sp) == "PrimeField::to_repr" and "N" in str(f.locals[0].get("ty") or ""):
+            return ("const-generic", "destination is [u8; N], the source is the field's 32-byte repr and every instantiation uses N = 32 (SECRET_KEY_BYTES)")
     # general: |dst| is a known linear form (a fixed array, vec![0; n], ..) and a dominating comparison pins |src| to it
     try:
         dl = B.int_form(T("len", dst))
